@@ -654,7 +654,12 @@ class SimReactor(MemoryReactorClock):
     def run_due_timer(self):
         call = self.calls.pop(0)
         call.called = 1
-        call.func(*call.args, **call.kw)
+        try:
+            call.func(*call.args, **call.kw)
+        except Exception:
+            # what ReactorBase.runUntilCurrent does
+            self.net.sim.note("exception_in_timer")
+            log.err(failure.Failure(), "sim: exception in delayed call")
 
 
 REACTOR = None   # set by simlib.boot
